@@ -66,7 +66,19 @@ def _mk_tag(fields):
 
 ops_src.REALIZE["Version"] = _mk_version
 ops_src.REALIZE["HTMLTextDocument"] = _mk("HTMLTextDocument")
-ops_src.REALIZE["HTMLDependency"] = _mk("HTMLDependency")
+
+
+def _mk_dep(fields):
+    """the record `as_html_tags` (what the Lean side uses in place of the untranslated method) must not shadow the method:
+    it is kept under another attribute name and reported back under its own"""
+    import htmltools
+    obj = object.__new__(htmltools.HTMLDependency)
+    for k, v in fields.items():
+        obj.__dict__["_srctie_as_html_tags" if k == "as_html_tags" else k] = v
+    return obj
+
+
+ops_src.REALIZE["HTMLDependency"] = _mk_dep
 ops_src.REALIZE["TagList"] = _mk_taglist
 ops_src.REALIZE["Tag"] = _mk_tag
 
@@ -80,7 +92,8 @@ def _encode(v, enc):
             r = _RANKS.get(str(v))
         return "O Version [ rank " + ("N" if r is None else f"I {r}") + " text S " + es(str(v)) + " ]"
     if isinstance(v, (htmltools.HTMLDependency, htmltools.HTMLTextDocument)):
-        return "O " + type(v).__name__ + " [ " + "".join(k + " " + enc(x) + " " for k, x in vars(v).items()) + "]"
+        return "O " + type(v).__name__ + " [ " + "".join(
+            ("as_html_tags" if k == "_srctie_as_html_tags" else k) + " " + enc(x) + " " for k, x in vars(v).items()) + "]"
     if type(v) is htmltools.TagList:
         return "O TagList [ data " + enc(list(v.data)) + " ]"
     if type(v) is htmltools.Tag:
@@ -115,6 +128,8 @@ def _init(a):
 ops_src.CALLS["HTMLTextDocument_static_extract"] = lambda a: _doc()._static_extract_serialized_html_deps(a[0])
 ops_src.CALLS["HTMLTextDocument_extract"] = _extract
 ops_src.CALLS["HTMLTextDocument_init"] = _init
+ops_src.CALLS["TagList_render"] = lambda a: a[0].render()
+ops_src.CALLS["HTMLTextDocument_render"] = lambda a: _doc().render(a[0], lib_prefix=a[1], include_version=a[2])
 
 
 @op("srcc13")
